@@ -293,6 +293,26 @@ def escape(ctx: Any) -> List[Ob]:
             sc_cache[row[2]] = row[2](ctx)
         ok, why = sc_cache[row[2]]
         obs.append(ob(R, (file, origin_fn), o.text, f'residual site ({short}): unreachable under its side condition -- {row[2].__doc__}', ok, why, None if ok else o.describe()))
+    # resolving a future that is already done or cancelled raises InvalidStateError: every set_result / set_exception reachable
+    # from the entry points is reached only through the `not done` edge of a test of that very future (a waiter can be
+    # cancelled, or resolved by its time-out, at any moment before the datagram that would wake it)
+    for f in sorted(ctx.cg.closure(roots), key=lambda x: x.full):
+        cfg = cfg_of(f.node)
+        for n in cfg.nodes:
+            for c in n.calls():
+                if call_name(c) in ('set_result', 'set_exception') and isinstance(c.func, ast.Attribute):
+                    fut = norm(c.func.value)
+                    guarded = False
+                    for t in cfg.nodes:
+                        if t.kind != 'test' or t.ast is None:
+                            continue
+                        e, live = t.ast, False
+                        while isinstance(e, ast.UnaryOp) and isinstance(e.op, ast.Not):
+                            e, live = e.operand, not live
+                        if isinstance(e, ast.Call) and call_name(e) in ('done', 'cancelled') and isinstance(e.func, ast.Attribute) and norm(e.func.value) == fut and call_name(e) == 'done':
+                            if cfg.only_through_edge(t, live, n):
+                                guarded = True
+                    obs.append(ob(R, f, c, f'`{fut}` is resolved only after a test that it is not done yet (else InvalidStateError escapes into the event loop)', guarded, '' if guarded else 'no dominating `not ...done()` test of this future'))
     return obs
 
 
